@@ -296,6 +296,13 @@ func cmdCheck(args []string) int {
 			viols = append(viols, viol{o, "obligation discharged on the baseline tree and now " + o.Status})
 		case o.Status == "failed":
 			viols = append(viols, viol{o, "new obligation refuted by the solver"})
+		case len(base) > 0 && !o.Cover && (o.Status == "unknown" || o.Status == "generr"):
+			// The code now generates an obligation that the unchanged tree did not have (a new
+			// call site of a contracted callee, a new path to a return, a new loop) and it is not
+			// discharged, even alone with four times the budget: the contract is not established
+			// for the code as it stands. (Without a recorded baseline - while contracts are being
+			// written - such obligations are merely listed as undecided.)
+			viols = append(viols, viol{o, "new obligation (not generated from the baseline tree) is not discharged: " + o.Status})
 		default:
 			undecided = append(undecided, o)
 		}
